@@ -400,8 +400,13 @@ class SqlImpl(TableImpl):
             cnt = dict()
             name_in_subquery = dict()
 
+            # (3) the grouping columns are needed by a later `summarize` / window function
+            subquery_cols = list(needed_cols.keys()) + [
+                col._uuid for col in query.partition_by if col._uuid not in needed_cols
+            ]
+
             # resolve potential column name collisions in the subquery
-            for uid in needed_cols.keys():
+            for uid in subquery_cols:
                 if uid in sqa_expr:
                     name = sqa_expr[uid].name
                     if c := cnt.get(name):
@@ -416,7 +421,7 @@ class SqlImpl(TableImpl):
             table = cls.compile_query(table, query, sqa_expr).subquery()
             sqa_expr = {
                 uid: sqa.label(name_in_subquery[uid], table.columns.get(name_in_subquery[uid]))
-                for uid in needed_cols.keys()
+                for uid in subquery_cols
                 if uid in sqa_expr
             }
 
